@@ -149,13 +149,18 @@ def c18_streams(ctx):
               f"UTF-8): program/arguments/wrappers of the real to_spawnable() vs the model; the first {nspawn} are really spawned through start_job with a spawn hook "
               "that sets an environment variable and the working directory — the helper child reports argv (hex), whether its process group / session differ "
               "from the harness's, cwd and the variable (oracle)")
-    return [s]
+    n2 = 3000 if ctx["thorough"] else 500
+    s2 = simple_stream("C18", "cli-argv", "cli", "wxcliargv", [ctx["seed"], n2], ["pure"],
+                       classify=lambda c, obs: ["noshell=" + c.split("\t")[1], "wrap=" + c.split("\t")[4], ("exec" if " x2d63" not in obs else "shell -c")])
+    s2.note = ("the CLI half: random -n / --shell=<x> / $SHELL / --wrap-process and command words through the REAL argument parser and make_config (hook H1); the program, "
+               "arguments and wrappers captured in the CLI's spawn hook right before the spawn vs interpret + argv + wrappers of the model")
+    return [s, s2]
 
 PLANS["C18"] = dict(
     modules=["Wx.Pure.C18"],
     theorems=["Wp.argv_exec", "Wp.argv_shell", "Wp.wrappers_session", "Wp.wrappers_grouped", "Wp.wrappers_plain", "Wp.interpret_noshell",
               "Wp.interpret_shell", "Wp.splitWs_clean", "Wp.splitWs_flatten"],
-    bins=[("lib", ["wxspawn"])],
+    bins=[("lib", ["wxspawn"]), ("cli", ["wxcliargv"])],
     streams=c18_streams,
     sources=["crates/supervisor/src/command/conversions.rs", "crates/supervisor/src/command/program.rs", "crates/supervisor/src/command/shell.rs", "crates/cli/src/config.rs"],
     rule="a case is one Command (program + spawn options); every case is non-trivial; distinct by (command, observation)",
